@@ -94,6 +94,70 @@ def R2_counters(ctx):
         ctx.bad("iterations-counter", "iterations argument is not a counter local", a.test.where())
 
 
+def _combined_loop_form(ctx, b):
+    """Combined written as a loop: let mut any = false; for m in models { let r = m.terminate_search(start, size, iter)?; any = any || r }
+    Ok(any) — decided on the loop's transfer function as a truth table over (any, r)"""
+    U = lambda t: rewrite(nosite(deep_strip(t)), lambda x: unmut(x) if x[0] == "mut" else None)
+    h = min(x for x, _ in b.natural_loops())
+    rows = iteration_table(b, h)
+    backs = [r for r in rows if r.kind == "back"]
+    models = ("field", ("variant", ("arg", 1), "Combined"), "models")
+    ok = bool(backs)
+    flag = None
+    truth = {}
+    why = ""
+    for r in backs:
+        calls = [U(v) for _, k, v in r.sites if k == TM + "::terminate_search"]
+        nxs = [U(v) for _, k, v in r.sites if k and itm(k, "next")]
+        if len(calls) != 1 or len(nxs) != 1:
+            ok, why = False, "a turn does not ask exactly one inner model"
+            continue
+        call, elem = calls[0], nxs[0]
+        if not (call[2] == (elem, ("arg", 2), ("arg", 3), ("arg", 4)) and contains(elem, lambda q: q[0] == "call" and q[1].endswith("::iter") and q[2] == (models,)) and not [c for c in calls_in(elem) if re.search(r"Iterator>?::(skip|take|step_by|filter)$", c[1])]):
+            ok, why = False, "the inner model is not an element of self.models asked about the same (start_time, solution_size, iteration)"
+            continue
+        # the carried boolean: a bool local read from the previous turn (it occurs as carried(l) in a condition or in a new value)
+        cands = []
+        for l in range(len(b.locals)):
+            if b.locals[l].get("ty") != "bool":
+                continue
+            used = any(contains(U(d), lambda q, l=l: q == ("carried", l)) for d, _, _ in r.conds) or any(contains(U(v), lambda q, l=l: q == ("carried", l)) for v in r.env.values())
+            if used and l in r.env:
+                cands.append(l)
+        for l in cands:
+            nv = U(r.new(l))
+            if nv not in (("const", "bool", True), ("const", "bool", False), ("carried", l), call) and not (nv[0] == "bin" and nv[1] == "BitOr"):
+                continue
+            flag = l if flag is None else flag
+            if l != flag:
+                continue
+            # assumptions of this row on (flag, call)
+            fa = [cond_truth(lab) for d, lab, _ in r.conds if U(d) == ("carried", l)]
+            ra = [cond_truth(lab) for d, lab, _ in r.conds if U(d) == call]
+            for fv in ([fa[0]] if fa else [False, True]):
+                for rv in ([ra[0]] if ra else [False, True]):
+                    if nv[0] == "const":
+                        out = nv[2]
+                    elif nv == ("carried", l):
+                        out = fv
+                    elif nv == call:
+                        out = rv
+                    else:
+                        out = fv or rv if {U(nv[2]), U(nv[3])} == {("carried", l), call} else None
+                    truth.setdefault((fv, rv), set()).add(out)
+    good = ok and flag is not None and all(truth.get((fv, rv)) == {fv or rv} for fv in (False, True) for rv in (False, True))
+    if ok and not good:
+        why = "the accumulated flag is not `any || verdict` (truth table %s)" % {k: sorted(map(str, v)) for k, v in truth.items()}
+    ctx.check(good, "Combined:any-inner-model", "Combined is not `any inner model terminates`: %s" % why, b.where(h), detail="any = any || m.terminate_search(start, size, iteration)? for every m in models")
+    if flag is not None:
+        e = U(loop_entry_value(b, h, flag))
+        ctx.check(e == ("const", "bool", False), "Combined:seed-false", "the accumulated flag does not start as false: %s" % short(e), b.where(h), detail="any = false")
+        rets = [r for r in rows if r.kind == "return" and result_variant(U(r.ret)) == "Ok"]
+        ctx.check(bool(rets) and all(agg_payload(U(r.ret)) == ("carried", flag) for r in rets), "Combined:returns-flag", "after all inner models the function does not return the accumulated flag", b.where(h), detail="Ok(any)")
+    errs = [r for r in rows if r.kind == "return" and result_variant(U(r.ret)) != "Ok"]
+    ctx.check(all(is_err_value(r.ret) or result_variant(U(r.ret)) == "Err" for r in errs), "Combined:errors-propagate", "an inner model's Err is not propagated", b.where(h))
+
+
 def R3_predicates(ctx):
     """C10.R3 predicate table of terminate_search / test"""
     F = ctx.F
@@ -146,6 +210,8 @@ def R3_predicates(ctx):
                 ctx.check(ok, "QueryRuntimeLimit:due", "on a scheduled turn the predicate is not `now - start_time > limit`: %s" % short(r.ret), b.where(), detail=short(val))
             else:
                 ctx.check(val == ("const", "bool", False), "QueryRuntimeLimit:not-due", "between scheduled checks the predicate is not `false`: %s" % short(r.ret), b.where(), detail=short(val))
+        elif v == "Combined" and b.natural_loops():
+            continue  # loop spelling: decided once below (Combined:any-inner-model)
         elif v == "Combined":
             t = r.ret
             ok = t[0] == "call" and itm(t[1], "try_fold") and t[2][1] == ("const", "bool", False) and t[2][0][0] == "call" and t[2][0][2] == (fld("models"),) and t[2][2][0] == "closure"
@@ -157,7 +223,7 @@ def R3_predicates(ctx):
                 crow = [x for x in table(cl) if x.end == "return"]
                 okc = False
                 if len(crow) == 1:
-                    ct = crow[0].ret
+                    ct = nosite(deep_strip(path_return_term(cl, crow[0].path)))  # the adaptor chain itself, not its normal form
                     if ct[0] == "call" and ct[1].endswith("Result::<T, E>::map") and ct[2][0][0] == "call" and ct[2][0][1] == TM + "::terminate_search":
                         inner_args = ct[2][0][2]
                         # captured (start, size, iteration) in order; receiver = the element
@@ -184,6 +250,9 @@ def R3_predicates(ctx):
                 ctx.check(okc, "Combined:disjunction", "the fold step is not `acc || inner.terminate_search(start, size, iteration)`", cl.where())
         else:
             ctx.bad("variant:%s" % v, "unknown TerminationModel variant — extend the predicate table", b.where())
+    if b.natural_loops():
+        _combined_loop_form(ctx, b)
+        seen.add("Combined")
     for v in ("IterationsLimit", "SolutionSizeLimit", "QueryRuntimeLimit", "Combined"):
         if v not in seen:
             ctx.bad("variant-missing:%s" % v, "no return path for variant %s" % v, b.where())
